@@ -6,7 +6,7 @@
 //! references, radix and zero padding of literals).  Both renderings must give the result of the
 //! canonical rendering (or fail like it does).
 
-use super::{c02, c05, c06, c08, c09, c10};
+use super::{c02, c03, c05, c06, c08, c09, c10};
 use crate::ast::Ln;
 use crate::evidence::{fp, Ev, Violation};
 use crate::gen;
@@ -27,6 +27,7 @@ pub enum Prog {
     Cond(c08::RawCase),
     Macro(c09::RawMacros),
     Syms(c10::RawSyms),
+    Rel(c03::RelCase),
 }
 
 #[derive(Clone, Debug)]
@@ -44,6 +45,7 @@ pub fn pair() -> impl Strategy<Value = Pair> {
         2 => c08::raw_case().prop_map(Prog::Cond),
         3 => c09::raw_macros().prop_map(|mut m| { m.leg = c09::Leg::Valid; Prog::Macro(m) }),
         3 => c10::raw_syms().prop_map(|mut s| { s.variant = c10::Variant::Valid; Prog::Syms(s) }),
+        2 => c03::rel_case().prop_map(|r| Prog::Rel(c03::clamp_reachable(r))),
     ];
     (prog, gen::style(), gen::style()).prop_map(|(prog, s1, s2)| Pair { prog, s1, s2 })
 }
@@ -56,6 +58,7 @@ pub fn ast_of(p: &Prog, devices: &[model::DeviceInfo]) -> (Vec<Ln>, &'static str
         Prog::Cond(c) => (c08::build(c).0, "cond"),
         Prog::Macro(m) => (c09::build(m).prog, "macro"),
         Prog::Syms(s) => (c10::build(s).prog, "syms"),
+        Prog::Rel(r) => (c03::build(r).prog, "branch"),
     }
 }
 
@@ -128,5 +131,5 @@ pub fn run(ctx: &Ctx) -> Result<Ev, String> {
 }
 
 pub fn rule() -> String {
-    "proptest: a valid program from the union of the layout (C02), expression (C05), data (C06), conditional (C08), macro (C09) and symbol (C10) generators × two independently generated styles; a style switches each of nine dimensions on or off (trailing ; // /* */ comments with hostile text, inserted blank and comment-only lines, runs of spaces/tabs at the permitted positions, LF/CRLF per line, letter case of mnemonics, registers, function names, symbol references, radix and zero padding of each literal) and draws per-token decisions from a seeded stream. Oracle: both renderings give exactly the canonical rendering's result (code, eeprom, sizes, ram_filling, message texts) or fail like it. Non-trivial = the two styles together use ≥3 dimensions, at least one token-level (case or radix), and the two texts differ; distinct = distinct pair of texts".into()
+    "proptest: a valid program from the union of the layout (C02), branch-placement (C03, incl. pc-relative operands), expression (C05), data (C06), conditional (C08), macro (C09) and symbol (C10) generators × two independently generated styles; a style switches each of nine dimensions on or off (trailing ; // /* */ comments with hostile text, inserted blank and comment-only lines, runs of spaces/tabs at the permitted positions, LF/CRLF per line, letter case of mnemonics, registers, function names, symbol references, radix and zero padding of each literal) and draws per-token decisions from a seeded stream. Oracle: both renderings give exactly the canonical rendering's result (code, eeprom, sizes, ram_filling, message texts) or fail like it. Non-trivial = the two styles together use ≥3 dimensions, at least one token-level (case or radix), and the two texts differ; distinct = distinct pair of texts".into()
 }
